@@ -61,6 +61,7 @@ class Check:
         """make (no-op when up to date), recompile props/<pid>.v to capture
         Print Assumptions, hygiene grep.  Returns True when all obligations discharged."""
         ok = True
+        sh(["bash", os.path.join(VERIF, "tools/gencoqproject.sh")])
         rc, out = sh("make -j16 2>&1 | tail -20", cwd=COQ, timeout=3000)
         rc2, _ = sh(["test", "-f", os.path.join(COQ, "theories/props/%s.vo" % self.pid)])
         if rc2 != 0:
@@ -137,6 +138,7 @@ class Check:
     # ---------------- builds ----------------
     def ensure_modelrun(self):
         srcs = [os.path.join(OCAML, f) for f in os.listdir(OCAML) if f.endswith((".ml", ".sh"))]
+        srcs += [os.path.join(OCAML, "extract.d", f) for f in os.listdir(os.path.join(OCAML, "extract.d"))]
         for root, _, files in os.walk(os.path.join(COQ, "theories")):
             srcs += [os.path.join(root, f) for f in files if f.endswith(".v")]
         newest = max(os.path.getmtime(s) for s in srcs)
@@ -157,14 +159,18 @@ class Check:
                     overlay[os.path.join(REPO, rel)] = os.path.join(root, f)
         if extra_overlay:
             overlay.update(extra_overlay)
+        sh(["bash", os.path.join(VERIF, "tools/genimports.sh")])
         ov = os.path.join(self.tmp, "overlay.json")
         json.dump({"Replace": overlay}, open(ov, "w"))
         out = os.path.join(self.tmp, "h_race" if race else "h")
-        cmd = ["go", "build", "-tags", tags, "-overlay", ov, "-o", out]
+        modfile = os.path.join(self.tmp, "go.mod")
+        gm = open(os.path.join(HARNESS, "go.mod")).read().replace("=> /repo", "=> " + REPO)
+        open(modfile, "w").write(gm)
+        shutil.copy(os.path.join(REPO, "go.sum"), os.path.join(self.tmp, "go.sum"))
+        cmd = ["go", "build", "-modfile", modfile, "-tags", tags, "-overlay", ov, "-o", out]
         if race:
             cmd.append("-race")
         cmd.append(".")
-        shutil.copy(os.path.join(REPO, "go.sum"), os.path.join(HARNESS, "go.sum"))
         rc, log = sh(cmd, cwd=HARNESS, env=GOENV, timeout=1800)
         if rc != 0:
             return None, log
